@@ -226,6 +226,13 @@ def check_bit_positions(ctx, top):
 
 def check_from_tk_bits(ctx, fn):
     """R13.9: from_tk — the wire of a measured bit is its register index minus the post-selected registers below it (those have no wire)"""
+    tkc_ = fn.args.args[0].arg
+    N0 = {tkc_: "tk_circuit"}
+    cmd_loop = next((s for s in fn.body if isinstance(s, ast.For) and "get_commands" in ast.unparse(s.iter)), None)
+    ctx.need(cmd_loop is not None, "from_tk has no loop over the commands")
+    shape.match_stmts(ctx, "R13.9", TK + ".from_tk:wires", [s for s in fn.body[:fn.body.index(cmd_loop)] if isinstance(s, ast.Assign) and isinstance(s.targets[0], ast.Name) and s.targets[0].id in ("n_bits", "n_qubits", "circuit")],
+                      ["n_bits = tk_circuit.n_bits - len(tk_circuit.post_selection)", "n_qubits = tk_circuit.n_qubits", "circuit = Id(0).tensor(*(n_qubits * [Ket(0)] + n_bits * [Bits(0)]))"], N0, mod=TK, node=fn, sig="from-tk-wires",
+                      required="one qubit wire per qubit register, one bit wire per bit register that is not post-selected (those end as effects on their qubit); qubits first, all initialised to 0")
     loop = next((s for s in fn.body if isinstance(s, ast.For) and "get_commands" in ast.unparse(s.iter)), None)
     ctx.need(loop is not None, "from_tk has no loop over the commands")
     meas = next((s for s in loop.body if isinstance(s, ast.If) and "Measure" in ast.unparse(s.test)), None)
